@@ -509,8 +509,8 @@ def run(ctx):
         ctx.notes.append('stream history skipped: the table group cache of the implementation cannot be replaced (%s)' % e)
         return
     q = ctx.tier == 'quick'
-    plans = [(('0', '0_0', '33'), None, 120 if q else 1500, 60 if q else 600, 80 if q else 600),
-             (('0', '0_0', '33'), ('0', '98_0', '1'), 60 if q else 600, 30 if q else 300, 40 if q else 300)]
+    plans = [(('0', '0_0', '33'), None, 120 if q else 600, 60 if q else 250, 80 if q else 300),
+             (('0', '0_0', '33'), ('0', '98_0', '1'), 60 if q else 300, 30 if q else 120, 40 if q else 150)]
     for wmo_sn, local_sn, n_good, n_bad, n_rows in plans:
         fb, fd = tables_io.read_group(wmo_sn, local_sn)
         label = '/'.join(wmo_sn) + ('+' + '/'.join(local_sn) if local_sn else '')
